@@ -20,25 +20,31 @@ type AuditResult struct {
 	Names    []string `json:"variants"`
 }
 
-// runAudit applies each single-edit variant registered for this property through
-// an in-memory overlay (one ctylint process per variant) and requires the named
-// rule to report the named construct. It tests the checker, not /repo.
+// runAudit is the sensitivity audit of the thorough tier. It tests the checker, not /repo:
+// every seeded mutant and every reverted fix under /verif/seeded that this property's rules are
+// recorded to detect (seeded/EXPECT.json, written by tools/matrix.py) is applied to /repo's
+// current source in memory (one ctylint process each) and must still be reported by one of the
+// recorded rules. A patch that no longer applies is counted stale, not missed.
 func runAudit(prop string, rules []*Rule) *AuditResult {
 	res := &AuditResult{}
-	dir := filepath.Join(verifDir(), "ctylint", "variants")
-	files, _ := filepath.Glob(filepath.Join(dir, "*.json"))
-	sort.Strings(files)
+	dir := filepath.Join(verifDir(), "seeded")
+	var expect map[string]struct {
+		Property string              `json:"property"`
+		Detected map[string][]string `json:"detected"`
+	}
+	b, err := os.ReadFile(filepath.Join(dir, "EXPECT.json"))
+	if err != nil || json.Unmarshal(b, &expect) != nil {
+		return res // no corpus: nothing to audit
+	}
 	var mine []string
-	for _, f := range files {
-		v, err := readVariant(f)
-		if err != nil {
-			res.Missed = append(res.Missed, filepath.Base(f)+": unreadable: "+err.Error())
-			continue
-		}
-		if v.Prop == prop {
-			mine = append(mine, f)
+	for name, e := range expect {
+		if len(e.Detected[prop]) > 0 {
+			if _, err := os.Stat(filepath.Join(dir, name, "patch.diff")); err == nil {
+				mine = append(mine, name)
+			}
 		}
 	}
+	sort.Strings(mine)
 	rand.New(rand.NewSource(int64(*flagSeed))).Shuffle(len(mine), func(i, j int) { mine[i], mine[j] = mine[j], mine[i] })
 	exe, err := os.Executable()
 	if err != nil {
@@ -48,19 +54,17 @@ func runAudit(prop string, rules []*Rule) *AuditResult {
 	var mu sync.Mutex
 	sem := make(chan struct{}, 6)
 	var wg sync.WaitGroup
-	for _, f := range mine {
-		f := f
+	for _, name := range mine {
+		name := name
 		wg.Add(1)
 		sem <- struct{}{}
 		go func() {
 			defer wg.Done()
 			defer func() { <-sem }()
-			v, _ := readVariant(f)
-			name := strings.TrimSuffix(filepath.Base(f), ".json")
 			tmp, _ := os.CreateTemp("", "ctylint-audit-*.json")
 			tmp.Close()
 			defer os.Remove(tmp.Name())
-			cmd := exec.Command(exe, "-prop", prop, "-tier", "quick", "-repo", *flagRepo, "-verif", verifDir(), "-overlay", f, "-json", tmp.Name(), "-nocontrols")
+			cmd := exec.Command(exe, "-prop", prop, "-tier", "quick", "-repo", *flagRepo, "-verif", verifDir(), "-overlaypatch", filepath.Join(dir, name, "patch.diff"), "-json", tmp.Name(), "-nocontrols")
 			out, _ := cmd.CombinedOutput()
 			mu.Lock()
 			defer mu.Unlock()
@@ -73,16 +77,20 @@ func runAudit(prop string, rules []*Rule) *AuditResult {
 			b, err := os.ReadFile(tmp.Name())
 			var obls []*Obligation
 			if err != nil || json.Unmarshal(b, &obls) != nil {
-				res.Missed = append(res.Missed, fmt.Sprintf("%s: no result (variant does not type-check?): %s", name, firstLine(string(out))))
+				res.Missed = append(res.Missed, fmt.Sprintf("%s: no result (mutant does not type-check?): %s", name, firstLine(string(out))))
 				return
 			}
+			want := map[string]bool{}
+			for _, r := range expect[name].Detected[prop] {
+				want[r] = true
+			}
 			for _, o := range obls {
-				if o.Status == "violation" && o.Rule == v.Rule && strings.Contains(o.Construct, v.Construct) {
+				if o.Status == "violation" && want[o.Rule] {
 					res.Detected++
 					return
 				}
 			}
-			res.Missed = append(res.Missed, fmt.Sprintf("%s: rule %s did not report %q", name, v.Rule, v.Construct))
+			res.Missed = append(res.Missed, fmt.Sprintf("%s: none of the rules %v reports it any more", name, expect[name].Detected[prop]))
 		}()
 	}
 	wg.Wait()
